@@ -47,19 +47,21 @@ Definition vres_eqb (a b : vres) : bool :=
   | _, _ => false
   end.
 
-Fixpoint run_ops (ms : list member) (t : tbl) (c : caches) (zlen : nat) (calls : list (vop * str)) : list vres :=
+Fixpoint run_ops (v : variant) (ms : list member) (t : tbl) (c : caches) (zname : str)
+    (calls : list (vop * str * vres)) : list vres :=
   match calls with
   | [] => []
-  | (op, sel) :: r => let (x, c') := vfs_op ms t c zlen op sel in x :: run_ops ms t c' zlen r
+  | (op, sel, chain) :: r => let (x, c') := vfs_op v ms t c zname op sel chain in x :: run_ops v ms t c' zname r
   end.
 
-(* (((variant, members), (zlen, calls)), results of the same calls on one real VFSZip) *)
+(* (((variant, members), (archive selector, calls each with the chain file system's own answer)),
+   results of the same calls on one real VFSZip) *)
 Inductive vout := VRaised | VRes (rs : list vres).
-Definition chk_vfs (c : ((variant * list member) * (nat * list (vop * str))) * vout) : bool :=
-  let '(((v, ms), (zlen, calls)), out) := c in
+Definition chk_vfs (c : ((variant * list member) * (str * list (vop * str * vres))) * vout) : bool :=
+  let '(((v, ms), (zname, calls)), out) := c in
   match populate v ms, out with
   | Err _, VRaised => true
-  | Ok (t, cc), VRes rs => list_eqb vres_eqb (run_ops ms t cc zlen calls) rs
+  | Ok (t, cc), VRes rs => list_eqb vres_eqb (run_ops v ms t cc zname calls) rs
   | _, _ => false
   end.
 
